@@ -4,7 +4,9 @@ from .. import common, sandbox, wproxy, rawhttp, gen_rbac, gen_http
 from ..oracles import rbac
 
 PATHS = ["/", "/a", "/a?k=v", "/a?k=w", "/a?K=V&q=w", "/a?q=", "/A/b", "/ab?k=v", "/a/b?k=v&q=w", "/b", "/machine?comp=goalstate", "/metadata/instance?api-version=2021-01-01",
-         "/a/../b", "/..", "/a/..", "/..a", "/a..b/c", "/a/%2e%2e/b", "/a?x=..", "/a//b", "/provision/x", "/a/.../b"]
+         "/a/../b", "/..", "/a/..", "/..a", "/a..b/c", "/a/%2e%2e/b", "/a?x=..", "/a//b", "/provision/x", "/a/.../b",
+         # the two uploads that are exempt from SIGNING are not exempt from the rules
+         "/vmAgentLog", "/machine/?comp=telemetrydata", "/VMAGENTLOG", "/Machine/?Comp=TelemetryData"]
 DESTS = ["wireserver", "hostga", "imds", "self", "other"]
 ATTR = ["record", "record", "record", "none", "deadpid", "unknownuid", "nonutf8"]
 
@@ -155,6 +157,38 @@ def worker(args, scratch):
                         res["violations"].append(["unattributable-bytes-upstream", {"host": name, "head": u.raw_head.decode("latin-1")[:300]}])
                 if m.errors:
                     res["violations"].append(["malformed-bytes-upstream", {"host": name, "errors": m.errors[:3]}])
+        # a process that becomes another program (execve in the same pid) is judged as what it is now: rules that name a program by
+        # process name or executable path must refuse it once it runs something else
+        for k in range(args.get("exec_histories", 3)):
+            e = w.identity(r.choice(["root", "alice"]), "granted", ["--k", str(k)], exec_capable=True)
+            by = r.choice(["processName", "exePath"])
+            doc = {"defaultAccess": "deny", "mode": "enforce", "id": "c01-exec-%d" % k,
+                   "rules": {"privileges": [{"name": "p", "path": "/x"}], "roles": [{"name": "ro", "privileges": ["p"]}],
+                             "identities": [{"name": "i", by: (e.exe_name if by == "processName" else e.exe)}], "roleAssignments": [{"role": "ro", "identities": ["i"]}]}}
+            w.rules("imds", doc)
+            for gi in range(3):
+                if gi > 0:
+                    e.exec_to("other%d" % gi, ["--gen", str(gi)])
+                vid = "c01x-%d-%d-%d" % (args["shard"], k, gi)
+                conn = w.open("imds", e)
+                conn.send(rawhttp.build_request("GET", "/x/y", [("x-vf-id", vid)]))
+                st = conn.read_response().status
+                conn.close()
+                res["evaluations"] += 1
+                relayed = bool(w.upstream(vid))
+                wit = {"rule_names_program_by": by, "pid": e.pid, "generation": gi, "current_program": e.exe, "status": st, "relayed": relayed}
+                if gi == 0:
+                    known_ids[vid] = "imds"
+                    if st != 200 or not relayed:
+                        res["violations"].append(["forward-expected-but-not-relayed", wit])
+                else:
+                    if relayed:
+                        res["violations"].append(["refused-request-reached-upstream", wit])
+                    if st != 403:
+                        res["violations"].append(["refusal-with-wrong-status", wit])
+                res["nontrivial"].append(common.sha(["exec", by, gi]))
+            cnt["exec_histories"] = cnt.get("exec_histories", 0) + 1
+        w.rules("imds", None)
         # policy lookup failure (the key-keeper state task is gone): the lookup must report an error (-> 500), never 'no rules' (-> relayed)
         for ep in ("wireserver", "hostga", "imds"):
             ip, port = wproxy.DESTS[ep]
